@@ -30,7 +30,7 @@ def new_fn(name, kind, refs=(), hidden=(), explicit=None, cluster="vz"):
 
 
 def random_prog(r, nmem=3, nplain=2, nvar=2, hidden_p=0.15, forms=("bare", "bare", "attr", "alias"), acyclic=True,
-                init_p=0.0, twins_p=0.0, late_p=0.0, shapes_p=0.0, factory_p=0.0, deco_p=0.0, lambdas_p=0.0, setdict_p=0.0):
+                init_p=0.0, twins_p=0.0, late_p=0.0, shapes_p=0.0, factory_p=0.0, deco_p=0.0, lambdas_p=0.0, setdict_p=0.0, tuple_p=0.0):
     names = ["m%d" % i for i in range(1, nmem + 1)] + ["h%d" % i for i in range(1, nplain + 1)]
     vars_ = ["v%d" % i for i in range(1, nvar + 1)]
     nodes = []
@@ -74,6 +74,11 @@ def random_prog(r, nmem=3, nplain=2, nvar=2, hidden_p=0.15, forms=("bare", "bare
         for c in ("K1", "K2"):
             nodes.append(dict(new_fn(c + ".sm", "plain"), cls=c))
             user["refs"].append({"to": c + ".sm", "form": "bare"})
+    # a tracked tuple holding a list: immutable only on the surface
+    if r.random() < tuple_p:
+        nodes.append({"name": "vt", "kind": "var", "val": ["std", [10, 20]], "tuple": True})
+        for u in r.sample([n for n in fns if n.get("where") != "init"], min(2, len(fns))):
+            u["refs"].append({"to": "vt", "form": "bare"})
     # a table whose insertion order (not its value) depends on the hash seed: built by iterating over a set
     if r.random() < setdict_p:
         nodes.append({"name": "vs", "kind": "var", "val": {"ka": 2, "kbb": 3, "kccc": 4, "kdddd": 5, "keeeee": 6}, "fromset": True})
@@ -148,6 +153,8 @@ def fn_source(n, twin=False, decorate=True):
     s = n["slots"]
     name = n["name"]
     lines = []
+    if n.get("shadow"):         # the module's own plain function under the name of a builtin
+        return "def %s(x):\n    return 'S%%d:%%s' %% (%d, x)\n" % (name, s["body"])
     if n.get("lam"):            # a module-level lambda (every lambda is named "<lambda>")
         return "%s = lambda a, d=%d: (%s, [%r, %d, 'c%d', d])[1]\n" % (
             name, s["dflt"], "None" if twin else "log('Body', %r)" % name, name, s["body"], s["const"])
@@ -259,7 +266,9 @@ def module_source(prog, twin=False, order=None):
         fns = sorted(fns, key=lambda n: order.index(n["name"]) if n["name"] in order else 99)
     for n in prog["nodes"]:
         if n["kind"] == "var":
-            if n.get("fromset"):
+            if n.get("tuple"):
+                out.append("%s = %r\n" % (n["name"], tuple(n["val"])))
+            elif n.get("fromset"):
                 out.append("%s = {k: len(k) for k in %s}\n" % (n["name"], "{" + ", ".join(repr(k) for k in sorted(n["val"])) + "}"))
             elif n.get("late"):
                 out.append("%s = %r\n" % (n["name"], type(n["val"])()))
@@ -313,7 +322,7 @@ def random_edit(r, prog, kinds=None):
         n["slots"][s] += 1
         return {"edit": "slot", "name": n["name"], "slot": s}
     if k == "var" and vars_:
-        n = r.choice(vars_)
+        n = r.choice([v for v in vars_ if not v.get("tuple") and not v.get("fromset")] or vars_)
         if n.get("late"):
             n["val"] = copy.deepcopy(r.choice([x for x in ([1, 2], [1, 2, 3], [5]) if x != n["val"]] if isinstance(n["val"], list)
                                               else [x for x in ({"a": 1}, {"a": 2}, {"b": [1]}) if x != n["val"]]))
@@ -323,9 +332,12 @@ def random_edit(r, prog, kinds=None):
         n["val"] = new
         return {"edit": "var", "name": n["name"]}
     if k == "var_mutate" and vars_:
-        cands = [n for n in vars_ if isinstance(n["val"], (list, dict))]
+        cands = [n for n in vars_ if isinstance(n["val"], (list, dict)) and not n.get("fromset")]
         if cands:
             n = r.choice(cands)
+            if n.get("tuple"):        # the tuple itself cannot change: the list inside it does
+                n["val"][1].append(len(n["val"][1]) + 10)
+                return {"edit": "var_mutate", "name": n["name"]}
             if isinstance(n["val"], list):
                 n["val"].append(len(n["val"]) + 10)
             else:
